@@ -633,7 +633,7 @@ class Variant(productmd.composeinfo.VariantBase):
             raise ValueError("Invalid character '-' in variant ID: %s" % self.id)
 
     def _validate_uid(self):
-        if self.parent:
+        if self.parent is not None:
             uid = "%s-%s" % (self.parent.uid, self.id)
         else:
             uid = self.uid
